@@ -7,25 +7,36 @@ use std::pin::Pin;
 use std::rc::Rc;
 use std::task::{Context, Poll};
 
-/// FIFO as a grow-only vector of slots plus a head index (VecDeque's ring arithmetic makes
-/// CBMC run out of memory).
+/// FIFO as a fixed array of slots plus explicit head/tail counters (plain fields stay
+/// constants under CBMC's constant propagation; `Vec::len()` / `VecDeque` do not, and every
+/// loop or index depending on them then unrolls to the unwind bound or runs out of memory).
+/// At most 16 messages may pass through one channel in a harness run (checked).
+const FIFO_SLOTS: usize = 16;
+
 struct Fifo<T> {
-    slots: Vec<Option<T>>,
+    slots: [Option<T>; FIFO_SLOTS],
     head: usize,
+    tail: usize,
 }
 
 impl<T> Fifo<T> {
     fn new() -> Self {
-        Fifo { slots: Vec::new(), head: 0 }
+        Fifo {
+            slots: [const { None }; FIFO_SLOTS],
+            head: 0,
+            tail: 0,
+        }
     }
     fn len(&self) -> usize {
-        self.slots.len() - self.head
+        self.tail - self.head
     }
     fn push_back(&mut self, v: T) {
-        self.slots.push(Some(v));
+        assert!(self.tail < FIFO_SLOTS, "tokio-model mpsc: more than 16 messages through one channel");
+        self.slots[self.tail] = Some(v);
+        self.tail += 1;
     }
     fn pop_front(&mut self) -> Option<T> {
-        if self.head < self.slots.len() {
+        if self.head < self.tail {
             let v = self.slots[self.head].take();
             self.head += 1;
             v
